@@ -8,6 +8,9 @@ import time
 from .facts import VERIF, AnalysisBroken
 
 
+EVDIR = os.environ.get('TBX_EVIDENCE_DIR') or os.path.join(VERIF, 'evidence')
+
+
 class KnownFindings:
     def __init__(self, path=None):
         self.path = path or os.path.join(VERIF, 'known_findings.txt')
@@ -107,7 +110,7 @@ class Ctx:
             print(l)
         replay = None
         if violations:
-            rd = os.path.join(VERIF, 'evidence', 'replay')
+            rd = os.path.join(EVDIR, 'replay')
             os.makedirs(rd, exist_ok=True)
             replay = os.path.join(rd, '%s.json' % self.prop)
             with open(replay, 'w') as fh:
@@ -157,8 +160,8 @@ class Ctx:
             'wall_s': round(time.time() - self.t0, 2),
             'violations': len(violations),
         }
-        os.makedirs(os.path.join(VERIF, 'evidence'), exist_ok=True)
-        with open(os.path.join(VERIF, 'evidence', '%s.json' % self.prop), 'w') as fh:
+        os.makedirs(EVDIR, exist_ok=True)
+        with open(os.path.join(EVDIR, '%s.json' % self.prop), 'w') as fh:
             json.dump(ev, fh, indent=1)
         if violations:
             print('VIOLATION property=%s replay=%s' % (self.prop, replay))
